@@ -55,6 +55,7 @@ def parseOp (t : String) : Option SOp :=
   | 'r' => some .rs
   | 'o' => some (.emit ((parseInt num).getD 0))
   | 'x' => some .throw
+  | 'k' => some (.kick num)
   | _ => none
 
 def splitSemi (ws : List String) : List (List String) :=
